@@ -535,7 +535,8 @@ func ProfileByName(name string) Profile {
 	case "C03":
 		p.PAbsent = 12
 		p.PWrongType = 5
-		p.PTests = 25
+		p.PTests = 40
+		p.PCatch = 35
 		p.PCoercer = 12
 		p.PGlobal = 25
 		p.PLayout = 50
